@@ -80,6 +80,9 @@ func (g *evGen) helper(d int) *evElem {
 		for k := 0; k < g.r.Intn(3); k++ {
 			alt.Sub = append(alt.Sub, g.elem(d-1))
 		}
+		if g.r.Intn(2) == 0 { // the alternative ends with a nullable list
+			alt.Sub = append(alt.Sub, &evElem{K: "list", Sub: []*evElem{g.term()}})
+		}
 		if g.r.Intn(2) == 0 {
 			// rule-level node; "A0..." sorts before every inline node name
 			alt.Name = "A0" + strings.Repeat("x", g.nextA0)
@@ -159,6 +162,10 @@ func (g *evGen) elem(d int) *evElem {
 		}
 		return e
 	case x < 11 && r.Intn(2) == 0 && g.nextH < 3:
+		if r.Intn(2) == 0 { // an annotated part that ends with the helper nonterminal
+			pre := g.term()
+			return &evElem{K: "arrow", Name: g.node(), Sub: []*evElem{{K: "seq", Sub: []*evElem{pre, g.helper(d)}}}}
+		}
 		return g.helper(d)
 	case x < 11 && r.Intn(2) == 0:
 		// twin lists: structurally identical elements reported as different nodes: (x -> A)+ y (x -> B)+
